@@ -142,6 +142,7 @@ inductive Att where
   | date (t z : Int)
   | size (n : Nat)
   | section (s : Section) (origin : Option Nat) (data : Str)
+  | opaque (s : Section) (origin : Option Nat)      -- a section go-message derives (part of a multipart / message/* body): not modelled
 deriving Repr, BEq
 
 inductive StatusKey where
@@ -268,9 +269,26 @@ structure FetchOpts where
   sections : List Section := []
 deriving Repr
 
+def isPrefixOf : Str → Str → Bool
+  | [], _ => true
+  | _ :: _, [] => false
+  | p :: ps, x :: xs => p == x && isPrefixOf ps xs
+
+def contentTypeKey : Str := [99, 111, 110, 116, 101, 110, 116, 45, 116, 121, 112, 101]   -- content-type
+def multipartPfx : Str := [109, 117, 108, 116, 105, 112, 97, 114, 116, 47]                -- multipart/
+def messagePfx : Str := [109, 101, 115, 115, 97, 103, 101, 47]                            -- message/
+
+/-- the message's media type makes part numbers mean something else than "the message itself"
+    (multipart/*, message/*): numbered sections of such messages are outside the model -/
+def opaqueParts (m : Message) : Bool :=
+  m.hdrs.any fun kv => lower kv.1 == contentTypeKey && (isPrefixOf multipartPfx (lower kv.2) || isPrefixOf messagePfx (lower kv.2))
+
 def sectionAtts (cfg : Cfg) (m : Message) : List Section → Option (List Att)
   | [] => some []
   | s :: rest =>
+    if opaqueParts m && !s.part.isEmpty then
+      (sectionAtts cfg m rest).map fun l => .opaque s (s.range.map fun p => p.1 % W32) :: l
+    else
     match bodySection cfg m s, sectionAtts cfg m rest with
     | .ok b, some l => some (.section s (s.range.map fun p => p.1 % W32) b :: l)
     | _, _ => none
